@@ -11,12 +11,11 @@ import vlib
 
 PROOF_MODULES = []     # coq/Assume/*.v are compiled directly by coqc (not yet in _CoqProject)
 OBLIGATIONS = ["C34/P_assumptions_sound.v", "C34/P_zero_sound.v", "C34/P_nonzero_sound.v", "C34/P_negative_sound.v",
-               "C34/P_nonnegative_sound_guarded.v", "C34/P_nonpositive_sound_guarded.v", "C34/P_positive_sound_guarded.v",
+               "C34/P_nonnegative_sound.v", "C34/P_nonpositive_sound.v", "C34/P_positive_sound.v",
                "C34/P_integer_sound.v", "C34/P_real_sound_guarded.v", "C34/P_complex_true_sound_guarded.v",
-               "C34/P_complex_false_sound.v", "C34/P_rational_sound_partial.v", "C34/P_finite_sound.v", "C34/P_even_sound.v", "C34/P_odd_sound.v",
-               "C34/P_refuted_nonnegative_nan_zoo.v", "C34/P_refuted_positive_complex_coefficient.v",
-               "C34/P_refuted_real_false_mul.v", "C34/P_refuted_real_false_add.v", "C34/P_refuted_real_pole.v",
-               "C34/P_nonvacuous.v"]
+               "C34/P_complex_false_sound.v", "C34/P_rational_sound_partial.v", "C34/P_finite_sound.v",
+               "C34/P_even_sound.v", "C34/P_odd_sound.v",
+               "C34/P_refuted_real_false_mul.v", "C34/P_refuted_real_pole.v", "C34/P_nonvacuous.v"]
 ASSUME_SRC = ["Assume/Tribool.v", "Assume/AssumeModel.v", "Assume/RefineModel.v", "Assume/AssumeSem.v",
               "Assume/AssumeProofs.v", "Assume/AssumeProofs2.v", "Assume/AssumeProofs3.v", "Assume/C34Theorems.v",
               "Assume/RefineProofs.v", "Assume/RefinePow.v", "Assume/RefineMaxMin.v"]
